@@ -98,7 +98,10 @@ pub fn gen_case(seed: u64, idx: u64, pairs: usize) -> Case {
         }
     };
     let unique = rng.chance(1, 4);
-    let alphabet: Vec<char> = match rng.below(5) {
+    let alphabet: Vec<char> = match rng.below(6) {
+        // punctuation that other tools read as comments, separators or
+        // quoting but that is plain data in a line and in an unquoted CSV field
+        5 => "#a%;|'!~".chars().collect(),
         0 => "ab".chars().collect(),
         1 => "abc".chars().collect(),
         2 => "abcde-_ .".chars().collect(),
@@ -284,6 +287,9 @@ fn account(st: &mut WStats, idx: u64, case: &Case, run: &crate::world::CaseRun) 
         && case.input.files.iter().any(|f| f.first().map(|r| r.0.starts_with("\u{ef}\u{bb}\u{bf}")).unwrap_or(false))
     {
         bump(&mut st.counters, "input.first_line_begins_with_a_byte_order_mark", 1);
+    }
+    if case.input.mode != Mode::Set && case.input.files.iter().any(|f| f.iter().any(|r| r.0.starts_with('#'))) {
+        bump(&mut st.counters, "input.map_row_begins_with_a_comment_sign", 1);
     }
     if case.input.crlf.iter().any(|b| *b) {
         bump(&mut st.counters, "input.crlf_line_ends", 1);
